@@ -67,8 +67,21 @@ def run_case(ctx, res, case, lines, post):
         hist = cc.random_history(random.Random(case['fseed'] + 5), comp, case['nsteps'])
     if case['poly']:
         betas = sorted({tuple(b[:nin]) for _, b in comp.active_set})
-        holder['polys'] = {o: c03.draw_poly(rng, betas, case['kpl'], nin, rng.randint(2, 5)) for o in out_names}
-        comp = build()
+        real_polys = {o: c03.draw_poly(rng, betas, case['kpl'], nin, rng.randint(2, 5)) for o in out_names}
+        if rng.random() < 0.5:
+            # life-cycle: the SAME component object, queried for derivatives while it was trained on another model, is cleared and
+            # retrained: derivatives must be those of the new surrogate
+            probe = {n: np.array([float(np.mean(list(map(float, d))))]) for n, d in comp.inputs.get_domains().items()}
+            try:
+                comp.gradient(probe, index_set='train'); comp.hessian(probe, index_set='test')
+            except Exception:  # noqa: BLE001
+                pass
+            comp.clear()
+            holder['polys'] = real_polys
+            res.hit('derivatives-queried-then-cleared-and-retrained')
+        else:
+            holder['polys'] = real_polys
+            comp = build()
         for a, b in hist:
             comp.activate_index(a, b)
     names, pts, kinds = c05.points_for(rng, comp, 14 if ctx.quick else 28)
@@ -135,6 +148,18 @@ def run_case(ctx, res, case, lines, post):
     try:
         jac = comp.gradient(X, index_set=mode)
         hes = comp.hessian(X, index_set=mode)
+        # the same points in a dict whose keys come in ANOTHER order than the component's inputs: same derivatives
+        if nin >= 2:
+            Xr = dict(reversed(list(X.items())))
+            jr, hr = comp.gradient(Xr, index_set=mode), comp.hessian(Xr, index_set=mode)
+            for o in out_names:
+                for nm, a_, b_ in (('gradient', jac[o], jr[o]), ('hessian', hes[o], hr[o])):
+                    a_, b_ = np.asarray(a_, dtype=float), np.asarray(b_, dtype=float)
+                    if a_.shape != b_.shape or not np.allclose(a_, b_, rtol=1e-9, atol=1e-9 * ymax_guess(a_), equal_nan=True):
+                        res.failures.append({'kind': nm + '-depends-on-the-key-order-of-the-input-dict',
+                                             'input': {**case, 'mode': mode, 'output': o, 'key_order': list(Xr),
+                                                       'history': [list(a) + list(b) for a, b in hist]}})
+            res.hit('reversed-input-key-order')
         # the same points one at a time: node special cases are decided per batch in the code, so a batch that contains
         # node points can mask errors at the others (and vice versa)
         jac1 = {o: [] for o in out_names}
